@@ -34,10 +34,16 @@ RULE = ("cases = (PDA definition, word) for runs and (definition) for validation
         "(≤3 states, adversarial state names, λ-cycles, accepting start configurations, overlapping "
         "alphabets incl. non-ASCII ones, str/tuple pushes, NPDA entries that are empty sets), a dense family "
         "with 4–5 states and words up to length 9, definitions declaring '' as a stack symbol (must be "
-        "refused) and malformed definitions; a run is non-trivial when at least one "
+        "refused), malformed definitions, tables whose stack symbols and state names have more than one "
+        "character ('Z0', 'bottom', names that are prefixes of each other; pushes as tuples of symbols, rarely "
+        "as the concatenated str) and tables with rows keyed by names missing from `states` that a move of the "
+        "start configuration enters (sometimes with a λ-move next to a symbol move in such a row only: must be "
+        "refused; if accepted, a word on which DPDA and NPDA disagree is searched); a run is non-trivial when at least one "
         "move is taken; distinct = distinct (definition, word) pairs")
 ASSUMPTIONS = [
-    "symbols are single characters; the empty string is not a stack symbol: PDA.validate refuses it (fix cb4efab; "
+    "input symbols are single characters (the input is a str, read character by character); a stack symbol is any "
+    "non-empty str — a tuple push is a sequence of symbols, a str push a sequence of one-character symbols (so "
+    "('Z0',) and 'Z0' are different pushes); the empty string is not a stack symbol: PDA.validate refuses it (fix cb4efab; "
     "PDAStack.top() returns '' for an empty stack, so a table keyed by '' let an empty stack move), hence no valid "
     "table has such a key and the model's stack-symbol type has no such value — every run checks that the "
     "constructors refuse such definitions and, if one is accepted, evaluates the property on it",
